@@ -22,6 +22,8 @@ BOUNDS = {
 ASSUMPTIONS = [
     'in the symbolic run gzip+json are the document-store stub (JSON round trip = identity on sanitised values); the real '
     'gzip/json are exercised by the real-OS validations and replays of every run',
+    'integers beyond CPython\'s int/str conversion limit (4300 digits) are outside the claim: json refuses them and the build '
+    'fails and is rolled back',
 ]
 WITNESSES = {'quick': ['served-from-cache', 'failure-marker-survived', 'created-dirs-survived', 'cache-object-compared', 'cache-write-failed'],
              'thorough': ['served-from-cache']}
